@@ -1,7 +1,10 @@
 import ZixModel.Model.Env
 /-! Specification of environment expansion as a left-to-right tokeniser over the string:
-`$NAME` (NAME = longest non-empty run of `[A-Z0-9_]`), a `~` followed by a path delimiter or
-the end, and literal bytes.  Values are appended verbatim (never rescanned). -/
+`$NAME` (NAME = longest non-empty run of `[A-Z0-9_]`), a `~` that stands alone as a path
+component (preceded by the start of the string or a path delimiter, followed by a path delimiter
+or the end), and literal bytes.  Values are appended verbatim (never rescanned).
+`prevDelim` tells whether the byte before the current position is the start of the string or a
+path delimiter. -/
 namespace Zix.Env
 
 theorem length_dropWhile_le' (p : Nat → Bool) (l : List Nat) : (l.dropWhile p).length ≤ l.length := by
@@ -9,20 +12,23 @@ theorem length_dropWhile_le' (p : Nat → Bool) (l : List Nat) : (l.dropWhile p)
   | nil => simp
   | cons x xs ih => simp only [List.dropWhile]; split <;> simp <;> omega
 
-/-- What the expansion of `str` must be. -/
-def spec (env : List (List Nat)) : List Nat → List Nat
-  | [] => []
-  | c :: rest =>
+/-- What the expansion of the rest of the string must be. -/
+def specFrom (env : List (List Nat)) : (prevDelim : Bool) → List Nat → List Nat
+  | _, [] => []
+  | prevDelim, c :: rest =>
     if c = 36 ∧ isVarChar (rest.headD 0) then
       let name := rest.takeWhile isVarChar
-      varText env (c :: name) ++ spec env (rest.dropWhile isVarChar)
-    else if c = 126 ∧ isPathDelim (rest.headD 0) then
-      varText env homeRef ++ spec env rest
+      varText env (c :: name) ++ specFrom env false (rest.dropWhile isVarChar)
+    else if c = 126 ∧ isPathDelim (rest.headD 0) ∧ prevDelim = true then
+      homeText env ++ specFrom env false rest
     else
-      c :: spec env rest
-termination_by l => l.length
+      c :: specFrom env (isPathDelim c) rest
+termination_by _ l => l.length
 decreasing_by
   all_goals simp_wf
   · have := length_dropWhile_le' isVarChar rest; omega
+
+/-- What the expansion of `str` must be. -/
+def spec (env : List (List Nat)) (str : List Nat) : List Nat := specFrom env true str
 
 end Zix.Env
